@@ -92,7 +92,9 @@ def lexLoop (spec : LexSpec) (bound : Nat) : Nat → (state : Nat) → (stack : 
     | [] =>
         if spec.eofRequiresInitial && st != 0 then throw .lexError else pure ⟨[], []⟩
     | c :: cs =>
-      let state := spec.states[st]!
+      match spec.states[st]? with
+      | none => throw (.other "bad-lexer-state")
+      | some state =>
       match firstMatch spec.tables bound state.rules prev s with
       | some (r, n, rest) =>
           if n == 0 then throw (.other "empty-match") else
